@@ -2,7 +2,7 @@
 from harness import dstprops, hcommon, hprop_run
 
 PROP = "C06"
-EXTRA_PROPS = ("C06b",)     # history level: the tracker denotes exactly the missing bytes, any arrival order of tiles
+EXTRA_PROPS = ("C06b", "C06c")     # history level: the tracker denotes exactly the missing bytes, any arrival order of tiles
 
 
 def proj(kind, d):
